@@ -27,7 +27,7 @@ COEFS = [  # (L, a_j generator)
     (1e-6, lambda j: 1e6 / (j + 1)),
     (3.7 - 2.2j, lambda j: (0.5 + 1.5j) * (-1) ** j),
 ]
-H0S = [1.0, 0.1]
+H0S = [1.0, 0.1, -0.5]      # a negative start step: the limit taken from below (Limit method "below" does this)
 
 
 RTYPE = {'v': 'float'}      # how the (real) step ratio is handed to the library: 'float' | 'int' | 'int64'
@@ -321,7 +321,7 @@ def run(ctx):
     req += ['real-int/terms=2', 'real-int64/terms=3']
     rule = ('full product of %d ratios (8 real, 12 complex) x spacing 1..4 x order 1..8 x num_terms 0..5 x '
             'lengths x columns; exact Gaussian-rational annihilation identities on the float weights; model '
-            'sequences L + sum a_j h^(order+spacing j) (4 coefficient patterns, 2 start steps) through the real '
+            'sequences L + sum a_j h^(order+spacing j) (4 coefficient patterns, 3 start steps 1, 0.1, -0.5) through the real '
             'Richardson.__call__: every slot == L within 1e3*eps*kappa*|w|_1*scale, shapes, estimates real and >= 0, '
             'column independence bit-for-bit.  Non-trivial = at least one term used and 100*eps*kappa < 0.5.'
             % len(ratios))
